@@ -2,8 +2,9 @@
 # round 3 prompt: the avoid list is built from the titles of all seeded changes kept so far for the property
 import json,sys,subprocess,glob,os,re
 pid=sys.argv[1]
+OUT=sys.argv[2] if len(sys.argv)>2 else 'seeded_out3'
 base=subprocess.run(['python3','/verif/tools_dev/agent_prompt.py',pid],capture_output=True,text=True).stdout
-base=base.replace('/tmp/seeded_out/%s/'%pid,'/tmp/seeded_out3/%s/'%pid).replace('git stash / git checkout to switch between states','use `git apply` and `git apply -R` of your own patch file to switch between states; do NOT use git stash (it is shared between worktrees)')
+base=base.replace('/tmp/seeded_out/%s/'%pid,'/tmp/'+OUT+'/%s/'%pid).replace('git stash / git checkout to switch between states','use `git apply` and `git apply -R` of your own patch file to switch between states; do NOT use git stash (it is shared between worktrees)')
 avoid=[]
 for f in sorted(glob.glob('/verif/seeded/*/meta.json')):
     m=json.load(open(f))
